@@ -1,6 +1,7 @@
 package values
 
 import (
+	"fmt"
 	"reflect"
 	"sort"
 )
@@ -73,4 +74,37 @@ func (s sortableByProperty) Less(i, j int) bool {
 		return !s.nilFirst
 	}
 	return Less(a, b)
+}
+
+// SortedMapKeys returns the keys of the map rv in a deterministic order (Go's own map
+// iteration order is random): keys that Less can order come in that order, any others are
+// ordered by their printed form.
+func SortedMapKeys(rv reflect.Value) []reflect.Value {
+	keys := rv.MapKeys()
+	sort.Sort(sortableKeys(keys))
+	return keys
+}
+
+type sortableKeys []reflect.Value
+
+// Len is part of sort.Interface.
+func (s sortableKeys) Len() int {
+	return len(s)
+}
+
+// Swap is part of sort.Interface.
+func (s sortableKeys) Swap(i, j int) {
+	s[i], s[j] = s[j], s[i]
+}
+
+// Less is part of sort.Interface.
+func (s sortableKeys) Less(i, j int) bool {
+	a, b := s[i].Interface(), s[j].Interface()
+	if Less(a, b) {
+		return true
+	}
+	if Less(b, a) {
+		return false
+	}
+	return fmt.Sprint(a) < fmt.Sprint(b)
 }
